@@ -1236,6 +1236,12 @@ static Byte DecodeAdr(tStrComp const* pArg, Word Erl, tAdrResult* pResult) {
 
         CompCnt = 0;
         do {
+            /* AdrComps[] holds base, index and one spare entry */
+
+            if (CompCnt >= (int)(sizeof(AdrComps) / sizeof(*AdrComps))) {
+                WrError(ErrNum_InvAddrMode);
+                return ModNone;
+            }
             pCompSplit = IndirComps.str.p_str;
             locStack   = -1;
             for (; ((locStack != -1) || (*pCompSplit != ',')) && (*pCompSplit != '\0');
